@@ -13,7 +13,7 @@ def run(pid, tier):
     sd = seed()
     wd = workdir(pid, 'traces')
     tr = wd / 'comp.ndjson'
-    s = rdv(['comp-drive', '--prop', pid, '--seed', sd, '--random', (40 if pid == 'C07' else 60) * (1 if tier == 'quick' else 40), '--out', tr], timeout=7200)
+    s = rdv(['comp-drive', '--prop', pid, '--seed', sd, '--random', (40 if pid == 'C07' else 25 if pid == 'C01' else 60) * (1 if tier == 'quick' else 40), '--out', tr], timeout=7200)
     o.extra['drive'] = s
     lines = tr.read_text().splitlines()
     if len(lines) < 500:
@@ -42,13 +42,28 @@ def run(pid, tier):
             key = '%s alpha64=%s' % (e.get('matched'), e.get('alpha64'))
             matched[key] = matched.get(key, 0) + 1
     o.extra['events_by_kind'] = kinds
+    if pid == 'C01':
+        w = [json.loads(x) for x in lines]
+        same = sum(1 for e in w if e.get('wa') == e.get('wb'))
+        o.extra['wire_events'] = len(w); o.extra['judged_same_word_count'] = same
+        o.extra['per_family'] = {f: sum(1 for e in w if e['fam'] == f) for f in sorted({e['fam'] for e in w})}
+        if same < 0.8 * len(w):
+            raise ToolError('fewer than 80%% of the wiring events follow the documented construction (%d of %d): vacuous' % (same, len(w)))
     if pid == 'C11':
         o.extra['construction_matched'] = matched
         if not any(k.startswith('stick') for k in matched) or not any(k.startswith('gamma') for k in matched):
             raise ToolError('both constructions must be exercised: %s' % list(matched)[:4])
     o.samples.append({'kind': 'paired execution event', 'event': {k: v for k, v in json.loads(lines[3]).items() if k not in ('sb', 'gn')}})
     o.samples.append({'kind': 'paired execution event', 'event': {k: v for k, v in json.loads(lines[len(lines) // 2]).items() if k not in ('sb', 'gn')}})
-    if pid == 'C07':
+    if pid == 'C01':
+        o.assumptions = [
+            'ONLY the composition layer is decided: ChiSquared, StudentT, FisherF, Pert, Exp, Gamma(shape <= 1), Normal(0,1) are the documented functions of the crate\'s own primitives '
+            '(StandardNormal, Exp1, Gamma with shape > 1, Beta) evaluated with the public API on a clone of the stream',
+            'NOT decided: the laws of the primitives themselves (ziggurat: structure only, C06; Marsaglia-Tsang, Cheng BB/BC, Michael-Schucany-Haas, the inverse-CDF one-liners) and of every family not listed; '
+            'no density, CDF or tail probability is evaluated anywhere (TLC cannot; DESIGN 3)',
+            'a call that consumes a different number of words than the documented construction is counted as another construction and not judged',
+        ]
+    elif pid == 'C07':
         o.assumptions = [
             'R3 reference fl(loc + fl(scale*b)) is one multiply and one add done by the harness on logged values (declared); tolerances are fixed in Compose.tla',
             'R1 is judged while results stay in the normal range (envelope E); R3 for the families with an explicit loc + scale*b form; Triangular, Pert, InverseGaussian by R1/R2; LogNormal by identity with exp(Normal)',
